@@ -39,6 +39,9 @@ CASES = [
     ('wire-206: 204 in force over a 206YYY skipped known element',
      [204004, 31021, 206008, 1001, 1002, 204000],
      [1, 9, 3, 7]),
+    ('marker-class33: a marker whose target is a class 33 element while quality information is pending takes TWO zero bits',
+     [1001, 33007, 1002, 222000, 236000, 101003, 31031, 223000, 237000, 223255, 223255],
+     [1, 50, 2, 0, 0, 0, 0, 0, 0, 0, 7, 60]),
 ]
 for name, ids, vals in CASES:
     try:
